@@ -1,7 +1,16 @@
 import Driver.Common
+import Driver.C08
 /-! Line-protocol handlers for C14 (sub-commands `c14` / `c14-*`). -/
 namespace Driver.C14
 
-def dispatch (_sub : String) (_i _o : IO.FS.Stream) : Option (IO Unit) := none
+/-- decoder totality for IPv4 / UDP / TCP (`c14-ipv4`, `c14-udp`, `c14-tcp`): the decode ops of
+    `Driver/C08.lean` on the malformed stream -/
+def dispatchCodecA (sub : String) (i o : IO.FS.Stream) : Option (IO Unit) :=
+  if sub == "c14-ipv4" || sub == "c14-udp" || sub == "c14-tcp" then
+    some (Driver.loop i o Driver.C08.step false)
+  else none
+
+def dispatch (sub : String) (i o : IO.FS.Stream) : Option (IO Unit) :=
+  dispatchCodecA sub i o
 
 end Driver.C14
